@@ -29,6 +29,7 @@ import "os"
 import "strconv"
 import "strings"
 import "unsafe"
+import "github.com/pbenner/autodiff/verifhook"
 /* matrix type declaration
  * -------------------------------------------------------------------------- */
 type SparseInt32Matrix struct {
@@ -293,6 +294,7 @@ func (matrix *SparseInt32Matrix) Tip() {
     }
     k = cycle
     for {
+      verifhook.Tick("tip.cycle")
       if k != mn-1 {
         k = matrix.rows*k % (mn-1)
       }
